@@ -16,8 +16,9 @@ M1(k, A) == Mut1(Skeleton(k), A) \cup {Skeleton(k)}
 M2(k) == UNION {Mut1(m, SmallAlphabet) : m \in Mut1(Skeleton(k), SmallAlphabet)}
 Strings == UNION {M1(k, IF k \in FullKinds THEN Tokens ELSE SmallAlphabet) : k \in Kinds}
              \cup UNION {M2(k) : k \in Kinds2}
-\* deep-immutable context: canonical strings and their small mutations
-DeepStrings == UNION {M1(k, SmallAlphabet) : k \in Kinds}
+\* deep-immutable context: canonical strings and their mutations with prefixes / separators / junk
+DeepAlphabet == {"ro.", "imm.", "X", "NL", "COLON"}
+DeepStrings == UNION {M1(k, IF k \in Kinds2 THEN SmallAlphabet ELSE DeepAlphabet) : k \in Kinds}
 
 Case(ts, deep) ==
   LET cs == Expand(ts)  r == Parse(cs, deep) IN
